@@ -13,7 +13,9 @@ import (
 	"time"
 
 	"github.com/bluenviron/gohlslib/v2/pkg/playlist"
+	"github.com/bluenviron/mediacommon/v2/pkg/codecs/av1"
 	"github.com/bluenviron/mediacommon/v2/pkg/codecs/h264"
+	"github.com/bluenviron/mediacommon/v2/pkg/codecs/h265"
 	"github.com/bluenviron/mediacommon/v2/pkg/formats/fmp4"
 	"github.com/bluenviron/mediacommon/v2/pkg/formats/mpegts"
 )
@@ -273,3 +275,13 @@ func verifStub_SPSWidth(s h264.SPS) int                    { return 1920 }
 func verifStub_SPSHeight(s h264.SPS) int                   { return 1080 }
 func verifStub_SPSFPS(s h264.SPS) float64                  { return 30 }
 
+
+// ---- parameter-set parsers used by codecparams.Marshal for H265 / AV1 (C09 lemma): accepted, zero fields ----
+
+func verifStub_H265SPSUnmarshal(s *h265.SPS, buf []byte) error         { return nil }
+func verifStub_AV1SeqUnmarshal(s *av1.SequenceHeader, buf []byte) error {
+	s.SeqLevelIdx = []uint8{8}
+	s.SeqTier = []bool{false}
+	s.ColorConfig.BitDepth = 8
+	return nil
+}
